@@ -44,6 +44,23 @@ def run(facts, rep, tier):
         rep.ob("C14.W5", "settings-write:" + key, ok, "written by a setter of the settings" if ok else
                "%s modifies settings.%s (%s) while converting: a setting is honoured for the first use only / differently from one definition to the next" % (fnq, a["field"], "/".join(str(x) for x in a["how"])), a["node"].get("sp"))
     rep.floor("C14.W5", "writes to the settings (all in setters)", nwr, 8)
+    # W5b: the conversion cache holds the user's conversions and nothing else: after the space is created it is only read
+    # (a cache that remembers converted schemas answers later conversions without their own checks, e.g. of the default)
+    cacc = field_accesses(c, lambda t: t.endswith("TypeSpace"), {"cache"})
+    rep.floor("C14.W5", "uses of the conversion cache", len(cacc), 1)
+    for a in cacc:
+        par = a["parent"]
+        callee = c.fns.get(par.get("fn", ""), {}) if par.get("k") == "mcall" else {}
+        mut_self = bool(callee.get("inputs")) and callee["inputs"][0].startswith("&mut")
+        if par.get("k") == "let" and str(par.get("param_ty", "")).startswith("&mut"):
+            mut_self = True  # the receiver of an inlined `&mut self` helper
+        wr = is_write(a["how"]) or mut_self
+        if not wr:
+            continue
+        okc = a["fn"].endswith("TypeSpace::new")
+        rep.ob("C14.W5", "cache-write:%s:%s" % (a["fn"], "/".join(str(x) for x in a["how"])), okc, "filled from the settings when the space is created" if okc else
+               "%s writes the conversion cache (%s) while converting: later occurrences of the schema are answered from the cache without the checks of their own conversion (annotations are not part of the key, so a `default` is never range-checked)" % (a["fn"], "/".join(str(x) for x in a["how"])), a["node"].get("sp"))
+
     # W6: two different settings do not share one keyed slot: a keyed insert by one setter must not be able to replace
     # what another setter stored (a replacement registered for a type is lost when a patch for it is registered later)
     by_field = {}
